@@ -53,7 +53,7 @@ func contextualEval(ctx context.Context, config EvalConfig, v rel.Value) (rel.Va
 	}
 	switch val := v.(type) {
 	case rel.String, rel.Bytes:
-		evaluated, err := EvalWithScope(ctx, "", val.String(), scope)
+		evaluated, err := EvalWithScope(withSandbox(ctx), "", val.String(), scope)
 		if err != nil {
 			return nil, err
 		}
